@@ -76,6 +76,9 @@ fn main() {
     run.par_for(fam.len(), |i| {
         let (name, d) = &fam[i];
         let Some(j) = check(&run, name, d, true) else { return };
+        if i % 200 == 0 {
+            run.sample(json!({"diagram": name, "pd": d.pd(), "jones": j.iter().map(|(e, c)| (e.to_string(), c.to_string())).collect::<Vec<_>>()}));
+        }
         // invariance along every move edge, q -> 1/q under mirroring (library values)
         if d.n <= 3 {
             for (mv, d2) in pd_moves(d, true) {
